@@ -306,6 +306,28 @@ type c16case struct {
 	R        int32  `json:"r,omitempty"`
 	Name     string `json:"name,omitempty"`
 	Dingbats bool   `json:"dingbats,omitempty"`
+	// Kind "sequence": names looked up one after the other (dingbats flag per
+	// name); every result must still be what it was when all are done
+	Names []string `json:"names,omitempty"`
+	Flags []bool   `json:"flags,omitempty"`
+}
+
+// checkSequence looks the names up in order, keeps the returned slices and
+// verifies at the end that none of them changed (a result handed out must not
+// be altered by later look-ups).
+func checkSequence(names_ []string, flags []bool) string {
+	got := make([][]rune, len(names_))
+	want := make([]string, len(names_))
+	for i, n := range names_ {
+		got[i] = names.ToUnicode(n, flags[i])
+		want[i] = string(got[i])
+	}
+	for i := range names_ {
+		if string(got[i]) != want[i] {
+			return fmt.Sprintf("the value returned by ToUnicode(%q, %v) changed from %s to %s after later look-ups (%q): results share mutable storage", names_[i], flags[i], hexSeq([]rune(want[i])), hexSeq(got[i]), names_[i+1:])
+		}
+	}
+	return ""
 }
 
 func runCase(c c16case) string {
@@ -316,6 +338,8 @@ func runCase(c c16case) string {
 		return checkName(c.Name, c.Dingbats)
 	case "valid":
 		return checkValid(c.Name)
+	case "sequence":
+		return checkSequence(c.Names, c.Flags)
 	}
 	return "unknown case kind " + c.Kind
 }
@@ -503,7 +527,7 @@ func genComponent() *rapid.Generator[string] {
 func TestP4Composite(t *testing.T) {
 	rec := ev.New("C16", "composite")
 	defer rec.Finish(t)
-	rec.Rule("random composite names: 1-5 components (glyph-list names incl. multi-code-point entries, dingbat names, uni/u forms valid and invalid, unknown and empty components) joined by '_', optional '.suffix' (which may itself contain '_' and '.'), dingbats flag random; compared with the harness's own implementation of the AGL specification algorithm. Non-trivial: >= 2 components or a suffix.")
+	rec.Rule("random composite names: 1-5 components (glyph-list names incl. multi-code-point entries, dingbat names, uni/u forms valid and invalid, unknown and empty components) joined by '_', optional '.suffix' (which may itself contain '_' and '.'), dingbats flag random; compared with the harness's own implementation of the AGL specification algorithm; for a quarter of the multi-component names a second name with the same first component is looked up afterwards and all results are examined again (a result handed out must not change). Non-trivial: >= 2 components or a suffix.")
 	multi, tcomma := multiBug(rec), tcommaBug(rec)
 	ev.SetupRapid(500000, 24000000)
 	rapid.Check(t, func(t *rapid.T) {
@@ -531,6 +555,16 @@ func TestP4Composite(t *testing.T) {
 		if msg := checkName(name, d); msg != "" {
 			rec.Violation(true, msg, c16case{Kind: "name", Name: name, Dingbats: d})
 			t.Fatalf("%s", msg)
+		}
+		// a second name sharing the first component, looked up afterwards
+		if n >= 2 && rapid.IntRange(0, 3).Draw(t, "sequence") == 0 {
+			other := parts[0] + "_" + genComponent().Draw(t, "c2") + suffix
+			seq := c16case{Kind: "sequence", Names: []string{name, other, name, parts[0]}, Flags: []bool{d, d, d, d}}
+			rec.Class("sequence")
+			if msg := checkSequence(seq.Names, seq.Flags); msg != "" {
+				rec.Violation(true, msg, seq)
+				t.Fatalf("%s", msg)
+			}
 		}
 	})
 }
